@@ -68,6 +68,32 @@ def js_mod(a: Union[int, float], b: Union[int, float]) -> Union[int, float]:
     return math.fmod(a, b)
 
 
+def js_pow(a: Union[int, float], b: Union[int, float]) -> Union[int, float]:
+    """JavaScript ** operator (Number::exponentiate)."""
+    if isinstance(a, int) and isinstance(b, int) and 0 <= b <= 64:
+        r = a**b
+        if abs(r) <= 2**53:
+            return r
+    a = float(a)
+    b = float(b)
+    if math.isnan(b):
+        return float("nan")
+    if b == 0:
+        return 1.0
+    if math.isnan(a) or (abs(a) == 1 and math.isinf(b)):
+        return float("nan")
+    odd = not math.isinf(b) and b == int(b) and int(b) % 2 == 1
+    try:
+        return math.pow(a, b)
+    except OverflowError:
+        return float("-inf") if a < 0 and odd else float("inf")
+    except ValueError:
+        # 0 ** negative is an infinity; negative ** fraction is NaN
+        if a == 0:
+            return float("-inf") if math.copysign(1, a) < 0 and odd else float("inf")
+        return float("nan")
+
+
 @dataclass
 class ClosureCell:
     """A cell for closure variable - allows sharing between scopes."""
@@ -469,7 +495,7 @@ class VM:
         elif op == OpCode.POW:
             b = self.stack.pop()
             a = self.stack.pop()
-            self.stack.append(to_number(a) ** to_number(b))
+            self.stack.append(js_pow(to_number(a), to_number(b)))
 
         elif op == OpCode.NEG:
             a = self.stack.pop()
